@@ -13,7 +13,7 @@
 //! value of the model's sequence x_0 = a, x_{i+1} = x_i op step (i < K; so the answer changes along the
 //! sequence whenever the sequence moves), R in {<, <=, >, >=, ==, partial_cmp}, five loop shapes.
 
-use crate::engine::{bytes_of, encode80, model_arith, Op, Opd};
+use crate::engine::{bytes_of, encode80, fresh_x87_thread_init, model_arith, Op, Opd};
 use crate::soft::{self, Info, X};
 use rayon::prelude::*;
 use rlib_f80::f80;
@@ -600,6 +600,8 @@ pub fn run(level: u8, opds: &[Opd]) -> Acc {
     let parts: Vec<Acc> = (0..n)
         .into_par_iter()
         .map(|i| {
+            // the history of every loop of this task is the task itself: see `run_level` in engine.rs
+            fresh_x87_thread_init();
             let mut acc = Acc::default();
             for j in 0..n {
                 acc.pairs += 1;
